@@ -41,6 +41,8 @@ M = [
  ("m40-commit-regress", "rpc.go", "		term == req.term && // don't commit any entry, until leader has committed an entry with his term\n		index > r.commitIndex // haven't we committed yet", "		term == req.term // don't commit any entry, until leader has committed an entry with his term", "C19"),
  ("m41-identity-and", "rpc.go", "		if r.cid != req.cid || r.nid != req.nid {", "		if r.cid != req.cid && r.nid != req.nid {", "C20"),
  ("m42-dialer-ignores-result", "conn.go", "	if err != nil || resp.result != success {", "	if err != nil {", "C20"),
+ ("m43b-removegte-wrong-index-c15", "rpc.go", "			r.storage.removeGTE(ne.index, prevTerm)\n			if ne.index <= r.configs.Latest.Index {", "			_ = prevTerm\n			r.storage.removeGTE(ne.index+1, me.term)\n			if ne.index <= r.configs.Latest.Index {", "C15"),
+ ("m19b-no-voting-right-validation-c11", "changeconfig.go", "		if n.Voter != nn.Voter {", "		if n.Voter != nn.Voter && false {", "C11"),
  ("m43-removegte-wrong-index", "rpc.go", "			r.storage.removeGTE(ne.index, prevTerm)\n			if ne.index <= r.configs.Latest.Index {", "			_ = prevTerm\n			r.storage.removeGTE(ne.index+1, me.term)\n			if ne.index <= r.configs.Latest.Index {", "C04"),
  ("m44-restore-keeps-index", "fsm.go", "	fsm.index, fsm.term, fsm.config = snap.meta.index, snap.meta.term, snap.meta.config", "	fsm.term, fsm.config = snap.meta.term, snap.meta.config", "C09"),
 ]
